@@ -7,6 +7,9 @@ from vf.ref import bech32_ref as B
 from vf.runner import Acc, filler
 
 PROPERTY = "C06"
+# E6: seq_ops() indices of the operations that are interrupted at every line (vf/seqexplore.interrupted); probes = the whole alphabet
+INTERRUPT_X = [0, 4]
+INTERRUPT_PROBES = None
 CONCUR_FILES = ('bits/bips/bip173.py', 'bits/bips/bip350.py', 'bits/utils.py')
 # (thread a, thread b), warm-up: indices into seq_ops() - the ordinary single-case checks run concurrently (vf/concur.py)
 CONCUR_SCEN = [((0, 1), ()), ((4, 9), (5,)), ((9, 7), (4, 10)), ((9, 9), (4,)), ((4, 9, 7), (5,))]   # the last one: three threads
@@ -23,6 +26,7 @@ ASSUMPTIONS = ["vf/ref/bech32_ref.py transcribes the BIP173/BIP350 reference dec
 OBLIGATIONS = {
     "concurrent_calls": "interleavings of two concurrent calls (single-case checks in two threads, cold and after warm-up calls)",
     "long_history": "operations executed in one long history (>= 1000 distinct operations, forward / forward / reverse)",
+    "interrupted_calls": "interruption points explored (an earlier call cut short by an asynchronous exception, then ordinary calls)",
     "history_sequences": "operation sequences (non-initial process states) explored",
     "short_program_2_5": "a v1+ program of 2..5 bytes round-tripped", "all_zero_32": "an all-zero 32-byte program round-tripped",
     "nonalphabet_version_char": "a non-alphabet character in the version position", "data_part_7_chars": "a 7-character data part with valid checksum",
@@ -124,6 +128,9 @@ def run_case(kind, case):
     if kind == "concurcase":
         from vf import concur
         return concur.replay_cases(run_case, PROPERTY, case, CONCUR_FILES)
+    if kind == "interrupted":
+        from vf import seqexplore
+        return seqexplore.replay_interrupted(run_case, case)
     if kind == "seq":
         from vf import seqexplore
         return seqexplore.replay(run_case, case)
@@ -303,6 +310,8 @@ def jobs(tier, seed):
     js += seq_jobs(2, weight=2)
     from vf.runner import long_jobs
     js += long_jobs()
+    from vf.runner import interrupt_jobs
+    js += interrupt_jobs(len(INTERRUPT_X))
     from vf.runner import concur_jobs
     js += concur_jobs(len(CONCUR_SCEN) - (1 if tier == "quick" else 0))
     return js
@@ -317,6 +326,11 @@ def run_job(job):
     if job["part"] == "longhist":
         from vf.runner import run_long_job, default_long_ops
         return run_long_job(job, default_long_ops(seq_ops, job), run_case)
+    if job["part"] == "interrupted":
+        from vf.runner import run_interrupt_job
+        ops = [o for o in seq_ops(dict(job, part="interrupted", shard=[0, 1]))]
+        probes = ops if INTERRUPT_PROBES is None else [ops[i] for i in INTERRUPT_PROBES]
+        return run_interrupt_job(job, [ops[i] for i in INTERRUPT_X], probes, run_case, CONCUR_FILES)
     if job["part"] == "seq":
         from vf.runner import run_seq_job
         return run_seq_job(job, seq_ops(job), run_case, depth=3 if job["tier"] == "quick" else 4)
